@@ -3,7 +3,7 @@
    Model/SourcesJson.v (both follow the code after the `fix:` commits listed in findings/C24.txt; the
    *_pinned variants follow the pinned code). *)
 From Octo Require Import SourcesCsv SourcesJson SourcesCsvProofs SourcesJsonProofs.
-From Octo Require Import Types SourcesJsonInfer SourcesJsonInferProofs.
+From Octo Require Import Types SourcesJsonInfer SourcesJsonInferProofs SourcesJsonFlatProofs.
 
 (* ---- CSV / TSV ------------------------------------------------------------------------------------------ *)
 
@@ -83,6 +83,15 @@ Print Assumptions C24_json_value_total.
 Theorem C24_json : forall fields obj, jrow_result_ok fields (exec_json_row true fields obj).
 Proof. exact exec_json_row_sound. Qed.
 Print Assumptions C24_json.
+
+(* For files whose values are scalars (null, number, boolean, string / RFC3339 time; keys may be missing, repeated,
+   explicit nulls): the rows the schema was inferred from are produced, none is an error.  (infer_json returns Ok
+   only for such files; nested values are the partial statement below.) *)
+Theorem C24_json_flat_preview_rows_ok : forall rows fs,
+  infer_json true rows = Ok fs -> forall r, In r (firstn 100 rows) ->
+  exists vs, exec_json_row true (jschema fs) r = Ok vs.
+Proof. exact json_flat_preview_rows_ok. Qed.
+Print Assumptions C24_json_flat_preview_rows_ok.
 
 (* Partial — the exact gap.  Nested inference is modelled (Model/SourcesJsonInfer.v: getOctoSQLType, the Creator
    loop with the missing-key NULLs, octosql.TypeSum = Model/Types.v tsum of C10) and tied differentially on
